@@ -117,16 +117,18 @@ where
         writeln!(writer, "pub struct {rust_name} {{")?;
         for (part_name, header) in &soap_operation.headers {
             let field_name = as_field_name(part_name);
-            let rust_type = as_type_name(header.rust_type.xml_name().ok_or(WriterError::InvalidReference)?);
+            // a header entry is the element the part refers to: it goes on the wire under the element's name
+            let xml_name = header.rust_type.xml_name().ok_or(WriterError::InvalidReference)?;
+            let rust_type = as_type_name(xml_name);
 
             if let Some(namespace) = header.in_namespace.as_ref() {
                 let abbreviation = namespace.abbreviation.as_str();
                 writeln!(
                     writer,
-                    "#[yaserde(prefix = \"{abbreviation}\", rename = \"{part_name}\")]"
+                    "#[yaserde(prefix = \"{abbreviation}\", rename = \"{xml_name}\")]"
                 )?;
             } else {
-                writeln!(writer, "    #[yaserde(rename = \"{part_name}\")]")?;
+                writeln!(writer, "    #[yaserde(rename = \"{xml_name}\")]")?;
             }
 
             // todo: we should check if the "mustUnderstand" == 1 to make the field required
